@@ -2,3 +2,6 @@
 impl core::fmt::Debug for UnknownCryptoError {
     fn fmt(&self, f: &mut core::fmt::Formatter<'_>) -> core::fmt::Result { f.write_str("UnknownCryptoError") }
 }
+impl core::fmt::Debug for getrandom::Error {
+    fn fmt(&self, f: &mut core::fmt::Formatter<'_>) -> core::fmt::Result { f.write_str("getrandom::Error") }
+}
